@@ -21,6 +21,7 @@ func c09(c *Ctx) {
 	defer c09pathAgreement(c)
 	defer c09deleteAll(c)
 	defer c09releaseRechecksUnderLock(c)
+	defer c09releaseRemovesOwnEntry(c)
 	defer c.hashIsOfInput()
 	P, R := c.P, c.R
 	R.Explain("R09.1", "T-GUARDED/T-PAIR: in WriteControlledStore.Get/Set/Delete the call into the wrapped store is dominated by acquireSyncRef(id) for the same id and by RLock (Get) / Lock (Set, Delete) on that entry's lock, with the unlock and releaseSyncRef deferred; only the two *Unchecked methods bypass it.")
@@ -1113,4 +1114,97 @@ func (c *Ctx) listReportsEveryParsedName(rule string) {
 		}
 	}
 	R.Min(rule, "file names parsed back into ids in package store", n, 1)
+}
+
+// c09releaseRemovesOwnEntry (R09.13): a releaser removes the table entry only if it is still its own.
+func c09releaseRemovesOwnEntry(c *Ctx) {
+	P, R := c.P, c.R
+	R.Explain("R09.13", "a releaser only removes its own entry: in package store, a function that is handed a *syncRef and deletes from WriteControlledStore.entryTable (or returns the entry to the pool) does so only on the equal edge of a comparison of the table's current entry for the id (a lookup in entryTable) with the entry it was handed.  A releaser that lost the race for the table lock can find its entry already removed and pooled by a later releaser and the id mapped to a newer entry in use (counter of the old entry still zero): deleting by id alone removes that newer entry, the next caller of the id gets a fresh lock and reads while a Set of the id is in progress.")
+	tableFld := c.fieldOf("store", "WriteControlledStore", "entryTable")
+	n := 0
+	for _, f := range c.funcsInPkg("store") {
+		var refParam *ssa.Parameter
+		for _, p := range f.Params {
+			if pt, ok := p.Type().(*types.Pointer); ok {
+				if nt := engine.NamedOf(pt.Elem()); nt != nil && nt.Obj().Name() == "syncRef" {
+					refParam = p
+				}
+			}
+		}
+		if refParam == nil {
+			continue
+		}
+		type guard struct {
+			b    *ssa.BasicBlock
+			edge int
+		}
+		var guards []guard
+		for _, b := range f.Blocks {
+			iff := engine.IfOf(b)
+			if iff == nil {
+				continue
+			}
+			bo, ok := iff.Cond.(*ssa.BinOp)
+			if !ok || (bo.Op != token.EQL && bo.Op != token.NEQ) {
+				continue
+			}
+			fromTable := func(v ssa.Value) bool {
+				found := false
+				engine.Backward(v, engine.FlowOpts{}, func(x ssa.Value) bool {
+					if lk, ok := x.(*ssa.Lookup); ok {
+						if ld, ok := lk.X.(*ssa.UnOp); ok && fieldAddrIs(ld.X, tableFld) {
+							found = true
+						}
+					}
+					return true
+				})
+				return found
+			}
+			isRef := func(v ssa.Value) bool {
+				found := false
+				engine.Backward(v, engine.FlowOpts{}, func(x ssa.Value) bool {
+					if x == ssa.Value(refParam) {
+						found = true
+					}
+					return true
+				})
+				return found
+			}
+			if (fromTable(bo.X) && isRef(bo.Y)) || (fromTable(bo.Y) && isRef(bo.X)) {
+				e := 0
+				if bo.Op == token.NEQ {
+					e = 1
+				}
+				guards = append(guards, guard{b, e})
+			}
+		}
+		for _, cs := range engine.Calls(f) {
+			cc := cs.Common()
+			isDel, isPut := false, false
+			if bi, ok := cc.Value.(*ssa.Builtin); ok && bi.Name() == "delete" && len(cc.Args) > 0 {
+				if ld, ok := cc.Args[0].(*ssa.UnOp); ok && fieldAddrIs(ld.X, tableFld) {
+					isDel = true
+				}
+			}
+			if sc := cc.StaticCallee(); sc != nil && engine.PkgPathOf(sc) == "sync" && sc.Name() == "Put" {
+				isPut = true
+			}
+			if !isDel && !isPut {
+				continue
+			}
+			n++
+			ok := false
+			for _, g := range guards {
+				if engine.EdgeDominates(g.b, g.edge, cs.Instr.Block()) {
+					ok = true
+				}
+			}
+			what := "delete from entryTable"
+			if isPut {
+				what = "return of the entry to the pool"
+			}
+			R.Check(ok, "R09.13", c.name(f)+"|"+what, P.Pos(cs.Pos()), "only when the table still maps the id to the entry handed in", "the "+what+" happens without comparing the table's current entry for the id with the entry being released: a releaser that lost the race for the table lock removes a newer entry of the same id that is in use (and pools its own entry twice), so a reader and a writer of one id run under different locks")
+		}
+	}
+	R.Min("R09.13", "recycling steps in functions handed a *syncRef", n, 2)
 }
